@@ -346,6 +346,15 @@ class Tle:
             # lines containing only a COSPAR ID, which happens when an object is detected but the
             # JSpOc doesn't know what is the source yet.
             if line.startswith("1 "):
+                if cache and cache[-1].startswith("1 "):
+                    # The previous first line never got its second line: report it and
+                    # drop it, so that it does not spoil the entry starting here
+                    msg = "Line 2 missing"
+                    if error == "raise":
+                        raise TleParseError(msg)
+                    elif error == "warn":
+                        log.warning(msg)
+                    cache = []
                 cache.append(line)
             elif line.startswith("2 "):
                 cache.append(line)
